@@ -63,6 +63,8 @@ LONG = [
     "stel i = 0; zolang i < 70000 { i += 1; als ja { stel a = i } anders { } } i",
     "stel i = 0; zolang ja { i += 1; als i >= 66000 { stop } } functie g() { 1 } g() + i",
     "functie f() { stel i = 0; zolang i < 70000 { i += 1; { stel x = i } } i } f()",
+    "stel i = 0; stel t = 0.0; zolang i < 70000 { i += 1; t = t + 0.5 } functie tel(n) { stel k = 0; stel u = 0.0; zolang k < n { k += 1; u = u + 1.0 } u }; [t, tel(1), 1.5 + 2.25, \"na de lus\", tel(70000), tel(2), 2.5 * 4.0]",
+    "stel i = 0; stel s = \"\"; zolang i < 140000 { i += 1; als i % 2 == 0 { volgende } s = \"oneven\" }; [s, \"tekst\", 0.25 + 0.5, i]",
 ]
 
 
@@ -93,12 +95,18 @@ def run(ctx, log):
         ctx.seen(s)
         ctx.count("outcome:" + progcheck.head(o).split()[0])
     # loops past 65 536 iterations: later code behaves the same (the implementation alone: too long for the Coq side)
-    expect = ["OK i70005", "OK i5", "OK i-50000", "OK i70000", "OK i66001", "OK i70000"]
+    expect = ["OK i70005", "OK i5", "OK i-50000", "OK i70000", "OK i66001", "OK i70000", None, None]
+    want_graph = {6: [35000.0, 1.0, 3.75, "na de lus", 70000.0, 2.0, 10.0], 7: ["oneven", "tekst", 0.75, 140000]}
     long_obs = vlib.nlh("eval", ["5000000 " + vlib.hexs(s) for s in LONG], tag="c11l", timeout=300)
     long_dbg = vlib.nlh("eval", ["5000000 " + vlib.hexs(s) for s in LONG], tag="c11ld", profile="debug", timeout=900)
     for s, e, o, d in zip(LONG, expect, long_obs, long_dbg):
         ctx.seen(s)
         for label, got in (("release", o), ("debug", d)):
+            if e is None:
+                ok_, want_ = progcheck.scale_ok(got, want_graph[LONG.index(s)])
+                if not ok_:
+                    ctx.violate("after a loop run many times literals / later code behave differently (%s build)" % label, source=s, observed=got[:200], expected=want_)
+                continue
             if progcheck.head(got) != e:
                 ctx.violate("a loop run many times left a residue / later code behaved differently (%s build)" % label, source=s, observed=got[:200], expected=e)
     # where code lands must not matter: every template at every code offset of a range that covers the one- and
